@@ -74,6 +74,8 @@ class Loaded:
                 "max": sym.sym_max,
                 "min": sym.sym_min,
                 "print": lambda *a, **k: None,
+                "__psvc_loop_enter__": _loop_enter,
+                "__psvc_loop_back__": _loop_back,
             }
         )
         self.ps = self._load(PKG)
@@ -116,7 +118,7 @@ class Loaded:
         self.sources[modname] = src
         tree = ast.parse(src, filename=path)
         self.trees[modname] = tree
-        lcs = {k: v for k, v in self.loop_contracts.items() if k.startswith(modname + ".")}
+        lcs = {k: v for k, v in self.loop_contracts.items() if k.partition("#")[0].rsplit(".", 2)[0] == modname}
         if lcs:
             from . import loopcut
 
@@ -196,6 +198,18 @@ class Loaded:
 
     def reset_globals(self):
         self.modules[f"{PKG}.base"].active_problem = None
+
+
+def _loop_enter(key, values, locs):
+    from . import loopcut
+
+    return loopcut.loop_enter(key, values, locs)
+
+
+def _loop_back(key, values, locs):
+    from . import loopcut
+
+    return loopcut.loop_back(key, values, locs)
 
 
 class _IntMeta(type):
